@@ -11,4 +11,6 @@ pub mod cbor;
 pub mod gen;
 pub mod cddl;
 pub mod mutate;
+pub mod scenario;
+pub mod ledger;
 pub mod props;
